@@ -853,6 +853,15 @@ func (l s1Loader) bulk(kind string, keys []int, olds []int) (map[int]int, error)
 			}
 		}
 		c.Err = errLoader
+	case "errextra":
+		// an error together with a map that also holds keys nobody asked for: a failed load leaves the cache unchanged
+		for _, k := range sorted {
+			if (a.Sel>>(k%8))&1 == 1 {
+				res[k] = r.newVal(a)
+			}
+		}
+		addExtra()
+		c.Err = errLoader
 	case "panic":
 		r.loaderCalls = append(r.loaderCalls, c)
 		panic("verif: bulk loader panic")
